@@ -801,7 +801,7 @@ def c11_tree(rng, depth, unsupported, place_bad):
         if place_bad[0] and rng.random() < 0.12:
             place_bad[0] -= 1
             k = rng.choice(unsupported)
-            cls = getattr(ast, k)
+            cls = getattr(ast, k.split("#")[0])
             slots = {}
             for f in cls._fields:
                 if f in ("body", "orelse", "finalbody") and d > 0 and rng.random() < 0.5:
@@ -871,6 +871,13 @@ C11_TEMPLATES = {
     "ClassDef": ("class C:\n    pass\n", 0),
     "Delete": ("del v\n", 0),
     "AnnAssign": ("v: int = 1\n", 0),
+    "AnnAssign#bare": ("v: int\n", 0),
+    "AnnAssign#attr": ("e.w: int\n", 0),
+    "Raise#bare": ("raise\n", 0),
+    "Assert#msg": ("assert c, e\n", 0),
+    "With#as": ("with c as v:\n    pass\n", 0),
+    "Try#finally": ("try:\n    pass\nfinally:\n    pass\n", 0),
+    "ClassDef#empty-bases": ("class C():\n    pass\n", 0),
     "TypeAlias": ("type T = int\n", 0),
     "AsyncFor": ("async def _f():\n    async for i in x:\n        pass\n", 1),
     "AsyncWith": ("async def _f():\n    async with c:\n        pass\n", 1),
@@ -894,21 +901,22 @@ def c11_realistic(kind):
     import ast
 
     tpl = C11_TEMPLATES.get(kind)
+    base = kind.split("#")[0]
     if tpl is not None:
         try:
             node = ast.parse(tpl[0]).body[0]
             for _ in range(tpl[1]):
                 node = node.body[-1]
-            if type(node).__name__ == kind:
+            if type(node).__name__ == base:
                 return node
         except SyntaxError:
             pass
-    return getattr(ast, kind)()
+    return getattr(ast, base)()
 
 
 def c11_coq(t):
     k, slots = t
-    return "Node %s %s" % (coqeval.coq_str(k), coqeval.coq_list(
+    return "Node %s %s" % (coqeval.coq_str(k.split("#")[0]), coqeval.coq_list(
         "(%s, %s)" % (coqeval.coq_str(f), coqeval.coq_list(c11_coq(c) for c in l)) for f, l in slots.items()))
 
 
@@ -947,6 +955,8 @@ def check_c11(pid, tier, build, props):
     kinds = [k.__name__ for k in c11_kinds()]
     supported = set(C11_LEAVES) | set(C11_SUPPORTED_COMPOUND)
     unsupported = [k for k in kinds if k not in supported]
+    # further shapes of the same classes (a statement class may be accepted for some of its forms only)
+    unsupported += [v for v in C11_TEMPLATES if "#" in v and v.split("#")[0] in unsupported]
     cases = []
     # every unsupported kind at every structural position
     positions = {
